@@ -37,6 +37,9 @@ def run_group(ctx, rule, methods, field_filter, what, returns=True, appends=True
         if m not in ref and m not in cur:
             continue
         if m in ref and m not in cur:
+            builds = any(not r[0].startswith("call:") for r in ref[m]["records"]) or any(x.startswith(("new:", "_parse_")) for x in ref[m]["returns"]) or ref[m]["appends"]
+            if not builds:
+                continue      # a helper that built nothing (a predicate, a pure forwarder) was inlined into its callers: their own wiring is what is compared
             raise AnalysisError(f"anchor {m} vanished: its reviewed wiring cannot be compared (re-review and regenerate sa/wiring_ref.json)")
         if m not in ref:
             has = [r for r in cur[m]["records"] if any(field_filter(r[0], k) for k in r[1]) and (label_filter is None or label_filter(r[0]))]
